@@ -126,6 +126,10 @@ def handle (fields : List String) : String :=
       match Quote.readLiteral (dec t).toList with
       | some (v, rest) => "ok\t" ++ enc (String.ofList v) ++ "\t" ++ enc (String.ofList rest)
       | none => "none"
+  | ["q.marker", t] =>
+      match MText.readFullMarker (dec t).toList with
+      | some its => "ok\t" ++ showItem (.group its)
+      | none => "none"
   | ["q.atom", t] =>
       match MText.readAtom (dec t).toList with
       | some (it, rest) => "ok\t" ++ showItem it ++ "\t" ++ enc (String.ofList rest)
